@@ -96,6 +96,12 @@ CHECKS = {
          'enumerated secret sources on all paths; default-level configuration is checked. Holds for all request histories because it quantifies over '
          'the sink sites, not over executions. Third-party exception texts are an assumption.',
          'Trusted: repr/str of pie objects print values (so whole objects are sources); logging level semantics.'),
+ 'C06': ('lookup-table name oracle (constant folding), sibling-implementation agreement (encrypt/decrypt, sign/verify), enum-class agreement at call sites, value provenance of generated material, primitive-per-arm oracle',
+         'PARTIAL CLAIM (structure only): 37 table entries map to the primitive of the same name; siblings agree on tables, padded modes, padding objects, IV/AAD/tag '
+         'handling and pad/unpad order; 22 payload-field -> parameter bindings agree in enumeration class; generated keys/IVs come from os.urandom / '
+         'rsa.generate_private_key sized by the request; each derivation/MAC/wrap arm builds the primitive its KMIP name denotes. The numeric claims of C06 '
+         '(outputs equal reference implementations, Decrypt inverts Encrypt for every input) are run-time values and are NOT decided.',
+         'Trusted: the cryptography package; T_ALIAS and T_DERIVE name tables.'),
 }
 
 NOT_YET = 'check not built yet in this session (rules designed in DESIGN.md section 4); will be claimed once its check exists and is silent on the unchanged tree'
